@@ -203,7 +203,8 @@ class SparseKDE(BaseEstimator):
         self._bandwidth_inv_ = None
         self._normkernels_ = None
         self._check_dimension(X)
-        self._grids = X
+        # keep our own copy: the fitted model must not follow later changes of the caller's array
+        self._grids = np.array(X)
         grid_dist_mat = self.metric(X, X)
         np.fill_diagonal(grid_dist_mat, np.inf)
         min_grid_dist = np.min(grid_dist_mat, axis=1)
